@@ -49,6 +49,10 @@ type MonC16 struct {
 	term   map[uint64]uint64 // leader -> term of the window bookkeeping
 	clean  map[uint64]bool   // leader -> all earlier-term entries were applied before its first accepted proposal
 	first  map[uint64]bool   // leader -> has accepted a proposal in this term
+	// snap: the monitor's own account of "a snapshot is pending for this follower": set when
+	// the leader hands a MsgSnap to the network, cleared when the leader is told the outcome
+	// (ReportSnapshot) or the follower acknowledges an index the leader's log still reaches.
+	snap   map[flowKey]uint64
 	shared bool
 }
 
@@ -56,6 +60,7 @@ func NewMonC16() *MonC16 { return &MonC16{} }
 func (m *MonC16) Prop() string { return "C16" }
 func (m *MonC16) Init(w *World) {
 	m.window, m.term, m.clean, m.first = map[flowKey][]inflightMsg{}, map[uint64]uint64{}, map[uint64]bool{}, map[uint64]bool{}
+	m.snap = map[flowKey]uint64{}
 }
 func (m *MonC16) Clone() Monitor {
 	m.shared = true
@@ -79,7 +84,11 @@ func (m *MonC16) own() {
 	for k, v := range m.first {
 		f[k] = v
 	}
-	m.window, m.term, m.clean, m.first, m.shared = wn, t, c, f, false
+	sn := make(map[flowKey]uint64, len(m.snap))
+	for k, v := range m.snap {
+		sn[k] = v
+	}
+	m.window, m.term, m.clean, m.first, m.snap, m.shared = wn, t, c, f, sn, false
 }
 func (m *MonC16) History(b []byte) []byte {
 	var ks []flowKey
@@ -101,6 +110,22 @@ func (m *MonC16) History(b []byte) []byte {
 		}
 		b = append(b, 0xff)
 	}
+	var sk []flowKey
+	for k := range m.snap {
+		sk = append(sk, k)
+	}
+	sort.Slice(sk, func(a, c int) bool {
+		if sk[a].leader != sk[c].leader {
+			return sk[a].leader < sk[c].leader
+		}
+		return sk[a].follower < sk[c].follower
+	})
+	for _, k := range sk {
+		b = binary.AppendUvarint(b, k.leader)
+		b = binary.AppendUvarint(b, k.follower)
+		b = binary.AppendUvarint(b, m.snap[k])
+	}
+	b = append(b, 0xfe)
 	for id := uint64(1); id <= 8; id++ {
 		b = binary.AppendUvarint(b, m.term[id])
 		if m.clean[id] {
@@ -141,6 +166,11 @@ func (m *MonC16) OnEvent(w *World, rec *StepRec) []*Violation {
 					delete(m.window, k)
 				}
 			}
+			for k := range m.snap {
+				if k.leader == n.ID {
+					delete(m.snap, k)
+				}
+			}
 		}
 		return out
 	}
@@ -153,6 +183,30 @@ func (m *MonC16) OnEvent(w *World, rec *StepRec) []*Violation {
 			if k.leader == n.ID {
 				delete(m.window, k)
 			}
+		}
+		for k := range m.snap {
+			if k.leader == n.ID {
+				delete(m.snap, k)
+			}
+		}
+	}
+	// the leader learns the outcome of a snapshot transfer
+	for k := range m.snap {
+		if k.leader != n.ID {
+			continue
+		}
+		done := progressOf(post, k.follower) == nil
+		if rec.Ev.Kind == EvReportSnap && uint64(rec.Ev.Peer) == k.follower {
+			done = true
+		}
+		if d := rec.Delivered; d != nil && d.GetType() == pb.MsgAppResp && d.GetFrom() == k.follower && !d.GetReject() && d.GetTerm() == post.Term {
+			if fi, err := n.Disk.FirstIndex(); err == nil && d.GetIndex()+1 >= fi {
+				done = true
+			}
+		}
+		if done {
+			m.own()
+			delete(m.snap, k)
 		}
 	}
 	// ---- in-flight window, per follower
@@ -172,10 +226,15 @@ func (m *MonC16) OnEvent(w *World, rec *StepRec) []*Violation {
 			if msg.GetTo() != f {
 				continue
 			}
-			if msg.GetType() == pb.MsgSnap {
+			if msg.GetType() == pb.MsgSnap && !rec.ManualSnap {
 				sawSnap = true
+				m.own()
+				m.snap[key] = msg.GetSnapshot().GetMetadata().GetIndex()
 			}
 			if msg.GetType() == pb.MsgApp {
+				if idx, pending := m.snap[key]; pending && !sawSnap {
+					out = append(out, &Violation{"C16", "no-append-while-snapshot-pending", fmt.Sprintf("leader %d produced MsgApp(prev %d, %d entries) to %d while the snapshot at %d it sent is outstanding (no ReportSnapshot, no acknowledgement from %d)", n.ID, msg.GetIndex(), len(msg.GetEntries()), f, idx, f)})
+				}
 				if sawSnap {
 					out = append(out, &Violation{"C16", "no-append-while-snapshot-pending", fmt.Sprintf("leader %d produced MsgApp to %d after a MsgSnap to it in the same step", n.ID, f)})
 				}
